@@ -2,6 +2,7 @@ import Driver.Common
 import GeosModel.Generated.Api
 import GeosModel.Model.Api.Bridge
 import GeosModel.Model.Api.Construct
+import GeosModel.Model.Api.Precond
 /-!
 Driver for C12 (`drv_c12 api-seq`): replays an observed C API call sequence (written by `harness/c12.cpp`)
 through the ownership-discipline model `GeosModel.Api.step`, with signatures and error values taken from
@@ -158,12 +159,6 @@ def interruptCall (lhs rhs : List String) : Option String :=
       | .abnormal cls => some cls
       | _ => some "bad-facts"
 
-/-- Documented precondition beyond ownership (geos_c.h, `GEOSSTRtree_build` / `query` / `nearest` / `nearest_generic` / `remove`:
-"The tree will automatically be constructed if necessary, after which no more items may be added"): these calls build the
-tree they are given (`GEOSSTRtree_iterate_r` does not). -/
-def treeBuilders : List String :=
-  ["GEOSSTRtree_build_r", "GEOSSTRtree_query_r", "GEOSSTRtree_nearest_r", "GEOSSTRtree_nearest_generic_r", "GEOSSTRtree_remove_r"]
-
 /-- the tree argument (first object token) of an STRtree call -/
 def treeArg (lhs : List String) : Option Nat :=
   match lhs.drop 1 with
@@ -228,12 +223,12 @@ def oneCallH (k : Nat) (h : Heap) (ws : List String) : Except String Heap := do
 def oneCall (k : Nat) (st : Heap × List Nat) (ws : List String) : Except String (Heap × List Nat) := do
   let (lhs, _) := splitArrow ws
   let fname := lhs.headD "?"
-  let t := treeArg lhs
-  if fname == "GEOSSTRtree_insert_r" && (match t with | some t => st.2.contains t | none => false) then
-    throw "ok"     -- precondition "no more items may be added" broken by the caller: outside the property's quantifier
-  let h' ← oneCallH k st.1 ws
-  let built := if treeBuilders.contains fname then (match t with | some t => t :: st.2 | none => st.2) else st.2
-  return (h', built)
+  let t := if fname.startsWith "GEOSSTRtree_" then treeArg lhs else none
+  match GeosModel.Api.TreeLife.step st.2 fname t with
+  | none => throw "ok"     -- precondition "no more items may be added" broken by the caller: outside the property's quantifier
+  | some built =>
+    let h' ← oneCallH k st.1 ws
+    return (h', built)
 
 def splitCalls (ws : List String) : List (List String) :=
   let rec go (cur : List String) (acc : List (List String)) : List String → List (List String)
